@@ -2697,6 +2697,11 @@ func (s *Server) serveConnCounted(c net.Conn, countConcurrency bool) error {
 			// Its bytes are still on the connection, so it cannot be reused.
 			connectionClose = true
 		}
+		if ctx.Request.bodyStreamUndrained {
+			// The same, but the stream has already been released (for example by PostBody after a read error).
+			ctx.Request.bodyStreamUndrained = false
+			connectionClose = true
+		}
 
 		connectionClose = connectionClose ||
 			(s.MaxRequestsPerConn > 0 && connRequestNum >= uint64(s.MaxRequestsPerConn)) || // #nosec G115
